@@ -52,7 +52,19 @@ EXT_SERVER_ONLY = [
     (41, Opt(U(2))),
 ]
 EXT_HRR_ONLY = [(51, U(2)), (43, Seq(U(1), U(1)))]
-EXT_CERT_ONLY = [(5, Seq(Const(1, 1), Var(3)))]
+OPAQUE = {}    # id(format node) -> node whose bytes are DER / compressed content outside the model
+BLOBS = set()  # opaque byte strings produced by real objects during this run (compressed certificates)
+
+
+def opaque(f):
+    g = tuple(f)
+    OPAQUE[id(g)] = g
+    return g
+
+
+SPKI = opaque(Var(3))
+DelegatedCredentialF = fseq([U(4), U(1), U(1), SPKI, U(1), U(1), Var(2)])
+EXT_CERT_ONLY = [(5, Seq(Const(1, 1), Var(3))), (34, DelegatedCredentialF)]
 EXT_TABLE = {
     'CtxUniversal': EXT_UNIVERSAL,
     'CtxServer': EXT_SERVER_ONLY + EXT_UNIVERSAL,
@@ -60,7 +72,7 @@ EXT_TABLE = {
     'CtxCert': EXT_CERT_ONLY + EXT_UNIVERSAL,
 }
 UNKNOWN_TYPES = [1, 22, 23, 42, 49, 4660, 65535]
-SPECIAL = {'CtxUniversal': (), 'CtxServer': (9, 62208, 51, 43, 41), 'CtxHRR': (51, 43), 'CtxCert': (5,)}
+SPECIAL = {'CtxUniversal': (), 'CtxServer': (9, 62208, 51, 43, 41), 'CtxHRR': (51, 43), 'CtxCert': (5, 34)}
 
 
 def ExtF(ctx):
@@ -70,8 +82,6 @@ def ExtF(ctx):
     for k, _ in table:
         if k not in known:
             known.append(k)
-    if ctx == 'CtxCert':
-        known = [k for k in known if k != 34]      # delegated credential (x509 level) not modelled
     return ('Tag', 2, lambda t: Bounded(2, sel(t)), known + UNKNOWN_TYPES, ctx)
 
 
@@ -82,8 +92,9 @@ HRR_RANDOM = bytes([207, 33, 173, 116, 229, 154, 97, 17, 190, 29, 140, 2, 30, 10
                     194, 162, 17, 22, 122, 187, 140, 94, 7, 158, 9, 226, 200, 168, 51, 156])
 HRR_INT = int.from_bytes(HRR_RANDOM, 'big')
 
-CERT12 = VarR(3, 1, 16777215)
-CERT13 = Var(3)
+CERT12 = opaque(VarR(3, 1, 16777215))
+CERT13 = opaque(Var(3))
+COMPRESSED = opaque(VarR(3, 1, 16777215))
 CertificateEntryF = Seq(CERT13, EXTLIST['CtxCert'])
 BOOL = {}     # id(format node) -> one-byte field holding a bool (0/1)
 NZ = {}       # id(format node) -> one-byte field that write() asserts to be non-zero (hashAlg, signAlg)
@@ -158,6 +169,29 @@ def der_certs():
     return _CERTS
 
 
+_SPKIS = None
+
+
+def spkis():
+    """real SubjectPublicKeyInfo DER strings (delegated credentials)"""
+    global _SPKIS
+    if _SPKIS is None:
+        from tlslite.utils.pem import dePem
+        out = []
+        for p in sorted(glob.glob(os.path.join(REPO, 'tests', '*Pub.pem'))):
+            try:
+                with open(p) as f:
+                    out.append(bytes(dePem(f.read(), 'PUBLIC KEY')))
+            except Exception:   # noqa
+                pass
+        _SPKIS = out
+    return _SPKIS
+
+
+def known_blobs():
+    return set(der_certs()) | set(spkis()) | BLOBS
+
+
 # =====================================================================================
 # extension adapters:  value <-> tlslite extension object
 def _ext_build(ctx, t, v):
@@ -183,6 +217,11 @@ def _ext_build(ctx, t, v):
             return E.HRRKeyShareExtension().create(v)
         if ctx == 'CtxCert' and t == 5:
             return E.CertificateStatusExtension().create(v[0], ba(v[1]))
+        if ctx == 'CtxCert' and t == 34:
+            from tlslite.x509 import DelegatedCredential, Credential
+            vt, a0, a1, spki, b0, b1, sig = untup(v, 7)
+            cred = Credential(vt, (a0, a1), ba(spki), Credential.marshal(vt, (a0, a1), ba(spki)))
+            return E.DelegatedCredentialCertExtension().create(DelegatedCredential(cred, (b0, b1), ba(sig)))
         raise AssertionError((ctx, t))
     if t == 0:
         if v is None:
@@ -293,6 +332,11 @@ def ext_view(e):
                                 B(k.target_hash), B(k.signature)]) for k in e.tacks], e.activation_flags))
     if n == 'CertificateStatusExtension':
         return Tagged(t, (e.status_type, B(e.response)))
+    if n == 'DelegatedCredentialCertExtension':
+        dc = e.delegated_credential
+        return Tagged(t, tup([dc.cred.valid_time, dc.cred.dc_cert_verify_algorithm[0],
+                              dc.cred.dc_cert_verify_algorithm[1], B(dc.cred.subject_public_key_info),
+                              dc.algorithm[0], dc.algorithm[1], B(dc.signature)]))
     raise AssertionError('no view for ' + n)
 
 
@@ -309,7 +353,7 @@ class Cls(object):
     """one covered class in one context"""
 
     def __init__(self, name, coq, fmt, new, build, view, whole=False, reject=(), hdr=None, weight=1,
-                 ext_ctx=None, canon=None, fix=None, ders=None):
+                 ext_ctx=None, canon=None, fix=None, gen=None, no_overflow=False):
         self.name, self.coq, self.fmt = name, coq, fmt
         self.new, self.build, self.view = new, build, view
         self.whole = whole            # the class requires the whole buffer to be consumed
@@ -317,7 +361,8 @@ class Cls(object):
         self.hdr = hdr                # handshake type consumed by the dispatcher before parse()
         self.weight = weight
         self.ext_ctx = ext_ctx
-        self.ders = ders                      # value -> the X.509 DER strings it carries (content outside the model)
+        self.gen = gen                        # class-specific value generator (rng -> value), else from the format
+        self.no_overflow = no_overflow        # bit-packed fields: 'does not fit' is checked by a dedicated oracle
         self.fix = fix or (lambda v: v)       # derived fields a generated value must respect (NPN padding)
         self.canon = canon or (lambda v: v)   # documented normalisation done by parse (integers: leading zeros)
 
@@ -424,8 +469,7 @@ def build_table():
     x509 = CertificateType.x509
     add('Certificate(tls1.2)', 'fmt_Certificate12', Msg(11, List(3, CERT12)), lambda: M.Certificate(x509, (3, 3)),
         lambda v: M.Certificate(x509, (3, 3)).create(X509s(v[1]) if v[1] else None),
-        lambda o: (11, [B(c.writeBytes()) for c in (o.cert_chain.x509List if o.cert_chain else [])]), hdr=11,
-        ders=lambda v: v[1])
+        lambda o: (11, [B(c.writeBytes()) for c in (o.cert_chain.x509List if o.cert_chain else [])]), hdr=11)
 
     def c13_build(v):
         ctx, entries = v[1]
@@ -437,7 +481,7 @@ def build_table():
     add('Certificate(tls1.3)', 'fmt_Certificate13', Msg(11, Seq(Var(1), List(3, CertificateEntryF))),
         lambda: M.Certificate(x509, (3, 4)), c13_build,
         lambda o: (11, (B(o.certificate_request_context), [cert_entry_view(e) for e in o.certificate_list])),
-        hdr=11, ext_ctx='CtxCert', ders=lambda v: [d for d, _ in v[1][1]])
+        hdr=11, ext_ctx='CtxCert')
     for tls12 in (True, False):
         ver = (3, 3) if tls12 else (3, 1)
         f = Msg(13, fseq([VarList(1, 1), VarTuples(1, 2, 2), List(2, Var(2))]) if tls12
@@ -594,8 +638,68 @@ def build_table():
             f += [int(o.encrypt_then_mac), int(o.extended_master_secret), B(o.server_name)]
         return Tagged(o.version, tup(f))
     add('SessionTicketPayload', 'fmt_SessionTicketPayload', ('Tag', 2, stp_sel, [0, 1, 2]), M.SessionTicketPayload,
-        stp_build, stp_view, whole=True, reject=(ValueError,), ext_ctx='CtxCert',
-        ders=lambda tv: [d for d, _ in untup(tv.v, {1: 7, 2: 10}[tv.t])[6]] if tv.t in (1, 2) else [])
+        stp_build, stp_view, whole=True, reject=(ValueError,), ext_ctx='CtxCert')
+
+    # ---- irregular layouts
+    def cc_gen(rng):
+        ders = [rng.choice(der_certs()[:6]) for _ in range(rng.choice([1, 1, 2]))]
+        ctxb = bytes(rng.randrange(256) for _ in range(rng.choice([0, 0, 3])))
+        o = M.CompressedCertificate(x509, (3, 4)).create(1, X509s(ders), ba(ctxb))
+        BLOBS.add(B(o._compressed_msg))
+        return cc_view(o)
+
+    def cc_build(v):
+        o = M.CompressedCertificate(x509, (3, 4))
+        o.compression_algo, o._uncompressed_msg_len, o._compressed_msg = v[1][0], v[1][1][0], ba(v[1][1][1])
+        return o
+
+    def cc_view(o):
+        return (25, tup([o.compression_algo, o._uncompressed_msg_len, B(o._compressed_msg)]))
+    from tlslite.errors import TLSIllegalParameterException
+    add('CompressedCertificate', 'fmt_CompressedCertificate', Msg(25, fseq([U(2), U(3), COMPRESSED])),
+        lambda: M.CompressedCertificate(x509, (3, 4)), cc_build, cc_view, hdr=25, gen=cc_gen,
+        reject=(TLSIllegalParameterException,))
+
+    def rh2_parts(tv):
+        if tv.t >= 128:
+            return ((tv.t & 0x7f) << 8) | tv.v, 0, False
+        return ((tv.t & 0x3f) << 8) | tv.v[0], tv.v[1], bool(tv.t & 0x40)
+
+    def rh2_value(length, padding, esc):
+        if not (padding or esc):
+            return Tagged(0x80 | (length >> 8), length & 0xff)
+        return Tagged((0x40 if esc else 0) | (length >> 8), (length & 0xff, padding))
+    add('RecordHeader2', 'fmt_RecordHeader2',
+        ('Tag', 1, lambda b: U(1) if b >= 128 else Seq(U(1), U(1)), list(range(0, 256, 7)) + [127, 128, 255]),
+        M.RecordHeader2, lambda tv: M.RecordHeader2().create(*rh2_parts(tv)),
+        lambda o: rh2_value(o.length, o.padding, bool(o.securityEscape)),
+        fix=lambda tv: rh2_value(*rh2_parts(tv)), canon=lambda tv: rh2_value(*rh2_parts(tv)), no_overflow=True)
+
+    def ssl2_sel(cl):
+        return ('Tag', 2, lambda sl: ('Tag', 2, lambda rl: (
+            fseq([Fix(cl), Fix(sl), Fix(rl)]) if cl >= 0 and cl % 3 == 0 and sl >= 0 and rl >= 0 else FAIL),
+            [32, 32, 33, 40]), [0, 0, 16, 32])
+
+    def ssl2_build(v):
+        maj, mnr, t = untup(v[1], 3)
+        cb, sid, rnd = untup(t.v.v.v, 3)
+        suites = [int.from_bytes(cb[i:i + 3], 'big') for i in range(0, len(cb), 3)]
+        return M.ClientHello(ssl2=True).create((maj, mnr), ba(rnd), ba(sid), suites)
+
+    def ssl2_value(maj, mnr, cb, sid, rnd):
+        return (1, tup([maj, mnr, Tagged(len(cb), Tagged(len(sid), Tagged(len(rnd), tup([cb, sid, rnd]))))]))
+
+    def ssl2_view(o):
+        return ssl2_value(o.client_version[0], o.client_version[1],
+                          b''.join(x.to_bytes(3, 'big') for x in o.cipher_suites), B(o.session_id), B(o.random))
+
+    def ssl2_canon(v):       # a challenge shorter than 32 bytes is left-padded with zeros by parse()
+        maj, mnr, t = untup(v[1], 3)
+        cb, sid, rnd = untup(t.v.v.v, 3)
+        return ssl2_value(maj, mnr, cb, sid, bytes(32 - len(rnd)) + rnd if len(rnd) < 32 else rnd)
+    add('ClientHello(ssl2)', 'fmt_ClientHelloSSL2',
+        Seq(Const(1, 1), fseq([U(1), U(1), ('Tag', 2, ssl2_sel, [0, 3, 6, 9, 30])])),
+        lambda: M.ClientHello(ssl2=True), ssl2_build, ssl2_view, hdr=1, canon=ssl2_canon)
 
     # ---- every extension class on its own, in every context
     from tlslite.extensions import TLSExtension
